@@ -1500,8 +1500,8 @@ func checkShowJS(t reflect.Type, types []reflect.Type) error {
 		switch {
 		case key == reflect.String:
 		case reflect.Bool <= key && key <= reflect.Complex128:
-		case t.Implements(stringerType):
-		case t.Implements(envStringerType):
+		case t.Key().Implements(stringerType):
+		case t.Key().Implements(envStringerType):
 		default:
 			return fmt.Errorf("cannot show map with %s key as JavaScript", t.Key())
 		}
@@ -1557,8 +1557,8 @@ func checkShowJSON(t reflect.Type, types []reflect.Type) error {
 		switch {
 		case key == reflect.String:
 		case reflect.Bool <= key && key <= reflect.Complex128:
-		case t.Implements(stringerType):
-		case t.Implements(envStringerType):
+		case t.Key().Implements(stringerType):
+		case t.Key().Implements(envStringerType):
 		default:
 			return fmt.Errorf("cannot show map with %s key as JSON", t.Key())
 		}
